@@ -29,6 +29,7 @@ ALLDS = ('%{cgroup:name=systemd}%{cwd}%{datetime}%{domain}%{egid}%{egroup}%{env_
 CFG_ALLDS = '[snoopy]\nmessage_format = ' + FMT + '|' + ALLDS.replace('|', '') + '\nfilter_chain = exclude_spawns_of:zz;exclude_uid:5;only_root;only_tty;only_uid:0;noop\noutput = file:@W@/log\n'
 CFG_STDOUT = '[snoopy]\nmessage_format = ' + FMT + '\nfilter_chain = only_uid:0;noop\noutput = stdout\n'
 CFG_SOCKABSENT = '[snoopy]\nmessage_format = ' + FMT + '\nfilter_chain = only_uid:0;noop\noutput = socket:@W@/nosock\n'
+CFG_STDERR = '[snoopy]\nmessage_format = ' + FMT + '\nfilter_chain = only_uid:0;noop\noutput = stderr\n'
 CFG_DROP = '[snoopy]\nmessage_format = ' + FMT + '\nfilter_chain = only_uid:0;only_root;exclude_uid:0;noop\noutput = file:@W@/log\n'
 
 
@@ -123,7 +124,8 @@ def campaign(ck, v, name, san, fn, cfg, n, k, bound, drop, stats, max_exec=None)
         if not hasattr(tl, 'w'):
             counter[0] += 1
             tl.w = os.path.join(ck.workdir, '%s-w%d' % (name, counter[0]))
-        return S.run_one(v['h_thr'], tl.w, cfg, n, k, 'calls', prefix, san=san, fn=fn, timeout=120)
+        cfgtext, envx = cfg if isinstance(cfg, tuple) else (cfg, None)
+        return S.run_one(v['h_thr'], tl.w, cfgtext, n, k, 'calls', prefix, san=san, fn=fn, timeout=120, env_extra=envx)
 
     def check(x):
         bad = judge(x, n, k, drop)
@@ -186,6 +188,11 @@ def run(ck):
         ('io-stdout-asan-2x1', vio, 'asan', False, CFG_STDOUT, 2, 1, 2, False),
         # socket output whose connect() fails (error path closes the descriptor): descriptor numbers are reused across threads
         ('io-sockabsent-asan-2x1', vio, 'asan', False, CFG_SOCKABSENT, 2, 1, 2, True),
+        # caller states: the std stream the records go to has lost its reader (each record is dropped - whatever a call leaves behind must not
+        # block the other thread's call); another thread of the program sits in a blocking stdio read and holds that stream's lock
+        ('io-stderr-gone-asan-2x1', vio, 'asan', False, (CFG_STDERR, {'VS_STD_GONE': '2'}), 2, 1, 1, True),
+        ('io-stdout-gone-asan-2x1', vio, 'asan', False, (CFG_STDOUT, {'VS_STD_GONE': '1'}), 2, 1, 1, True),
+        ('io-stdout-stdio-reader-asan-2x1', vio, 'asan', False, (CFG_STDOUT, {'VS_STDIO_READER': '1'}), 2, 1, 1, False),
         ('fn-asan-2x1', vf, 'asan', True, CFG_LOG, 2, 1, 1, False),
         ('fn-asan-drop-2x1', vf, 'asan', True, CFG_DROP, 2, 1, 1, True),
     ]
